@@ -61,6 +61,10 @@ func merge(logs types.ChangeLogSlice) types.ChangeLogSlice {
 		if !needMerge(log.LogType) {
 			// 不需要merge的changelog就直接按照顺序push到数组中
 			result = append(result, log.Copy())
+			if log.LogType == SuicideLog {
+				// suicide overwrites balance and roots. The logs behind it must not be merged into the logs in front of it
+				typeMap = make(map[types.ChangeLogType]map[interface{}]int)
+			}
 			continue
 		}
 
